@@ -226,7 +226,17 @@ func oracleSched(c *JCase) {
 		}
 	}
 	mal := c.Mode == "sched-malformed"
-	writeCalls, casOff := 0, false
+	writeCalls, casOff := 0, false // writeCalls: the highest version the backend can have handed out so far
+	staleDel := map[string]int{}   // key -> step of a delete that returned ok without matching the live row (uid or version)
+	diverged := func(step int, key string, detail string) {
+		if j, ok := staleDel[key]; ok {
+			if _, live := o.cur[key]; live {
+				o.fail("delete-stale-accepted", step, fmt.Sprintf("the delete at step %d presented a uid/version that did not match the live row, yet the row is gone: %s", j, detail), nil)
+				return
+			}
+		}
+		o.fail("state-diverged", step, detail, nil)
+	}
 	staleQueued := 0 // batches committed before the latest restore and still unpublished
 	saveEpoch := func() { epochs[o.epoch] = &epochRec{o.commits, o.states} }
 	restoresSoFar := 0
@@ -241,6 +251,8 @@ func oracleSched(c *JCase) {
 			}
 			if op.T == "write" {
 				writeCalls++
+			} else if v, err := strconv.Atoi(op.Res.Ver); err == nil && v > writeCalls {
+				writeCalls = v
 			}
 			okW := out.T == "res" || (op.T == "writes" && out.T == "ok")
 			if !okW {
@@ -274,6 +286,7 @@ func oracleSched(c *JCase) {
 				o.fail("cas-stale-accepted", i, fmt.Sprintf("write presenting version %q accepted for an id that is not stored (old lifetime)", presented), nil)
 			}
 			o.cur[key] = stored
+			delete(staleDel, key)
 			o.addCommit("upsert", stored)
 		case "delete":
 			if out.T != "ok" {
@@ -281,7 +294,10 @@ func oracleSched(c *JCase) {
 			}
 			if cur, live := o.cur[op.ID.key()]; live && cur.Uid == op.Uid && cur.Ver == op.Vsn {
 				delete(o.cur, op.ID.key())
+				delete(staleDel, op.ID.key())
 				o.addCommit("delete", cur)
+			} else if live {
+				staleDel[op.ID.key()] = i
 			}
 		case "publish":
 			if out.B {
@@ -315,7 +331,17 @@ func oracleSched(c *JCase) {
 				exp = append(exp, r)
 			}
 			if !sameList(sortedByKey(exp), sortedByKey(out.List)) {
-				o.fail("state-diverged", i, fmt.Sprintf("snapshot shows %v, the successful operations explain %v", sortedByKey(out.List), sortedByKey(exp)), nil)
+				got := map[string]bool{}
+				for _, r := range out.List {
+					got[r.ID.key()] = true
+				}
+				key := ""
+				for _, r := range exp {
+					if _, st := staleDel[r.ID.key()]; st && !got[r.ID.key()] {
+						key = r.ID.key()
+					}
+				}
+				diverged(i, key, fmt.Sprintf("snapshot shows %v, the successful operations explain %v", sortedByKey(out.List), sortedByKey(exp)))
 			}
 		case "list":
 			if mal || out.T != "list" {
@@ -323,6 +349,19 @@ func oracleSched(c *JCase) {
 			}
 			if exp := listingOf(o.cur, *op.Q); !sameList(exp, sortedByKey(out.List)) {
 				o.fail("state-diverged", i, fmt.Sprintf("list %v shows %v, expected %v", *op.Q, out.List, exp), nil)
+			}
+		case "listowner":
+			if mal || out.T != "list" {
+				break
+			}
+			var exp []JRes
+			for _, r := range o.cur {
+				if r.Own != nil && r.Own.ID == *op.ID && r.Own.Uid == op.Uid {
+					exp = append(exp, r)
+				}
+			}
+			if !sameList(sortedByKey(exp), sortedByKey(out.List)) {
+				o.fail("state-diverged", i, fmt.Sprintf("list-by-owner %s/%s shows %v, expected %v", op.ID.Nm, op.Uid, out.List, sortedByKey(exp)), nil)
 			}
 		case "read":
 			key := op.ID.key()
@@ -347,8 +386,18 @@ func oracleSched(c *JCase) {
 			}
 			if op.Uid == "" || (live && op.Uid == cur.Uid) {
 				if live != (got != nil) || (live && !resEq(*got, cur)) {
-					o.fail("state-diverged", i, fmt.Sprintf("read of %s returned %v, expected stored=%v %v", op.ID.Nm, got, live, cur), nil)
+					diverged(i, key, fmt.Sprintf("read of %s returned %v, expected stored=%v %v", op.ID.Nm, got, live, cur))
 				}
+			} else if got != nil {
+				// a read naming a uid other than the live row's (a deleted lifetime) must not be answered, whatever the GroupVersion
+				if live {
+					o.fail("read-by-stale-uid-answered", i, fmt.Sprintf("read of %s with uid %q (group version %q) returned %v; the live row has uid %q", op.ID.Nm, op.Uid, op.GV, *got, cur.Uid), nil)
+				} else {
+					diverged(i, key, fmt.Sprintf("read of %s with uid %q returned %v, nothing is stored", op.ID.Nm, op.Uid, *got))
+				}
+			}
+			if got != nil && live && resEq(*got, cur) && ((out.T == "gvm") != (cur.GV != op.GV)) {
+				o.fail("read-group-version-rule", i, fmt.Sprintf("read of %s asking %q, stored %q, answered %s", op.ID.Nm, op.GV, cur.GV, out.T), nil)
 			}
 		case "watch":
 			if out.T == "watch" {
